@@ -6,7 +6,7 @@
 // with the same size (merged) or that overlap nothing in the other input".
 // A region is seen as its cell map  Map<i64, T>  (offset -> value; the size of a cell is the bytesize of
 // its value).  Nothing here is trusted: these are definitions.  The hypotheses on the value domain T are
-// the predicate `mr_domain_ok`, listed in the `requires` of every contract that needs them.
+// the predicate `mr_domain_ok` (relative to T's value invariant), listed in the `requires` of every contract that needs them.
 // ---------------------------------------------------------------------------
 
 /// size in bytes of a value
@@ -15,30 +15,56 @@ pub open spec fn mr_size<T: SizedDomain>(v: T) -> int { v.bytesize_spec() as int
 /// the cell at offset k with size ksz and the byte range [p, p+s) have a byte in common
 pub open spec fn mr_meets(k: int, ksz: int, p: int, s: int) -> bool { k < p + s && p < k + ksz }
 
-/// HYPOTHESES of property C05 on the value domain T (every implementor of the three traits in
-/// cwe_checker is meant to satisfy them; they are not checked here):
-///   sizes fit: bytesize <= 2^25 (so `u64::from(bytesize) as i64` is exact and size sums cannot overflow u64),
-///   merge keeps the size of equally sized operands,
-///   top() is a top value of the same size, new_top(s) is a top value of size s,
-///   clone() returns its argument.
+/// HYPOTHESES of property C05 on the value domain T, RELATIVE TO T's VALUE INVARIANT `inv_spec` (restated traits, contracts/mem_region.vc)
+/// and T's merge precondition `merge_pre_spec`: they speak about well-formed values only, because `forall v: T` ranges over every
+/// inhabitant of the Rust type (a `Top` or a `DataDomain` whose size field is 2^60 is one).  Every value handed to a region must
+/// satisfy inv_spec (`requires`), every stored cell does (`mr_cells_inv`, part of `ok()`).
+///   (pre)   a well-formed value may be asked for its size and its top (`bytesize` / `top` have a precondition in some domains),
+///   (size)  sizes fit: bytesize <= 2^25 (so `u64::from(bytesize) as i64` is exact and size sums cannot overflow u64),
+///   (merge) merge of two well-formed values of equal size (under merge_pre_spec) is well-formed and keeps the size,
+///   (top)   top() of a well-formed value is a well-formed top value of the same size, and may be merged with that value,
+///   (new)   new_top(s) for 1 <= s <= 2^25 is a well-formed top value of size s; a well-formed value may be merged with the
+///           new_top of its own size,
+///   (clone) clone() returns its argument.
 /// (`bytesize > 0` is NOT a hypothesis: insert_at_byte_index asserts it, stored cells have it by `mr_cells_ok`.)
+/// HISTORY: until the instantiation units were written these were UNCONDITIONAL `forall`s, and the (new) clause ranged over every
+/// `s: ByteSize`; together with (size) that made the predicate UNSATISFIABLE (new_top(ByteSize(2^25 + 1))).  SATISFIABILITY is now
+/// machine-checked: `lemma_mr_toy_hyps` (contracts/mem_region.vc) and the real instantiations in unit instantiate_mem_region.
 pub open spec fn mr_domain_ok<T: AbstractDomain + SizedDomain + HasTop>() -> bool {
-    &&& forall |v: T| (#[trigger] v.bytesize_spec()) <= MAXBYTES()
-    &&& forall |a: T, b: T| a.bytesize_spec() == b.bytesize_spec() ==> (#[trigger] a.merge_spec(&b)).bytesize_spec() == a.bytesize_spec()
-    &&& forall |a: T| (#[trigger] a.top_spec()).is_top_spec() && a.top_spec().bytesize_spec() == a.bytesize_spec()
-    &&& forall |s: ByteSize| (#[trigger] T::new_top_spec(s)).is_top_spec() && T::new_top_spec(s).bytesize_spec() == s.0
+    &&& forall |v: T| #[trigger] v.inv_spec() ==> v.bytesize_pre_spec() && v.top_pre_spec()
+    &&& forall |v: T| v.inv_spec() ==> (#[trigger] v.bytesize_spec()) <= MAXBYTES()
+    &&& forall |a: T, b: T| a.inv_spec() && b.inv_spec() && a.merge_pre_spec(&b) && a.bytesize_spec() == b.bytesize_spec()
+            ==> (#[trigger] a.merge_spec(&b)).bytesize_spec() == a.bytesize_spec() && a.merge_spec(&b).inv_spec()
+    &&& forall |a: T| a.inv_spec() ==> (#[trigger] a.top_spec()).is_top_spec() && a.top_spec().bytesize_spec() == a.bytesize_spec()
+            && a.top_spec().inv_spec() && a.merge_pre_spec(&a.top_spec())
+    &&& forall |s: ByteSize| 1 <= s.0 <= MAXBYTES() ==> (#[trigger] T::new_top_spec(s)).is_top_spec() && T::new_top_spec(s).bytesize_spec() == s.0
+            && T::new_top_spec(s).inv_spec()
+    &&& forall |a: T| #[trigger] a.inv_spec() ==> a.merge_pre_spec(&T::new_top_spec(ByteSize(a.bytesize_spec() as u64)))
     &&& forall |a: T, b: T| #[trigger] call_ensures(T::clone, (&a,), b) ==> a == b
 }
 
 /// Additional HYPOTHESES needed only by `MemRegion::merge` (which returns `self.clone()` when `self == other`):
-/// `==` on values decides specification equality, and merge is idempotent.
+/// `==` on values decides specification equality; and -- only for the clause that states the fast path through the merge rule --
+/// merge is idempotent on well-formed values.
 pub open spec fn mr_eq_is_spec_eq<T: AbstractDomain + SizedDomain + HasTop>() -> bool {
     &&& T::obeys_eq_spec()
     &&& forall |a: T, b: T| #[trigger] a.eq_spec(&b) <==> a == b
 }
 
 pub open spec fn mr_merge_idem<T: AbstractDomain + SizedDomain + HasTop>() -> bool {
-    forall |a: T| #[trigger] a.merge_spec(&a) == a
+    forall |a: T| a.inv_spec() ==> #[trigger] a.merge_spec(&a) == a
+}
+
+/// every stored cell satisfies the value invariant of T (part of `ok()`)
+pub open spec fn mr_cells_inv<T: AbstractDomain + SizedDomain + HasTop>(m: Map<i64, T>) -> bool {
+    forall |k: i64| #[trigger] m.contains_key(k) ==> m[k].inv_spec()
+}
+
+/// T::merge's precondition holds on every pair of cells that `merge_inner` merges: the two cells at an offset both regions hold,
+/// when they have the same size
+pub open spec fn mr_merge_pre<T: AbstractDomain + SizedDomain + HasTop>(a: Map<i64, T>, b: Map<i64, T>) -> bool {
+    forall |k: i64| #![trigger a.contains_key(k)] #![trigger b.contains_key(k)]
+        a.contains_key(k) && b.contains_key(k) && a[k].bytesize_spec() == b[k].bytesize_spec() ==> a[k].merge_pre_spec(&b[k])
 }
 
 /// THE INVARIANT of the property: no stored cell is the unknown value (and no cell is empty),
@@ -243,11 +269,19 @@ pub open spec fn mr_no_later<T: AbstractDomain + SizedDomain + HasTop>(m: Map<i6
     forall |k: i64| #[trigger] m.contains_key(k) && k > x ==> k >= e
 }
 
+/// what merge_inner needs of its two inputs for T's preconditions (value invariant of all cells, merge precondition on the pairs that are
+/// merged) -- OPAQUE: carried through the zipped loop as one atom and opened per offset by lemma_mr_merge_call_pre (keeps the
+/// quantifiers out of the loop's context; a failing obligation of the loop is then reported as such instead of as a resource limit)
+#[verifier::opaque]
+pub open spec fn mr_merge_inputs_inv<T: AbstractDomain + SizedDomain + HasTop>(a: Map<i64, T>, b: Map<i64, T>) -> bool {
+    mr_cells_inv(a) && mr_cells_inv(b) && mr_merge_pre(a, b)
+}
+
 impl<T: AbstractDomain + SizedDomain + HasTop> MemRegion<T> {
     /// the cell map of the region
     #[verifier::inline]
     pub open spec fn cells(&self) -> Map<i64, T> { self.inner.values@ }
-    /// invariant + machine-arithmetic range
+    /// invariant + machine-arithmetic range + every cell satisfies T's value invariant
     #[verifier::inline]
-    pub open spec fn ok(&self) -> bool { mr_cells_ok(self.inner.values@) && mr_in_range(self.inner.values@) }
+    pub open spec fn ok(&self) -> bool { mr_cells_ok(self.inner.values@) && mr_in_range(self.inner.values@) && mr_cells_inv(self.inner.values@) }
 }
